@@ -49,10 +49,40 @@ def signature_hex(t, priv, message):
     return True, ""
 
 
-def entry_dict(t):
+def materialise(t, events_before):
+    """a dict display that was created and then filled by stores (d = {}; d[k] = v): the display
+    of what the stores put there, in order (later stores under the same key replace earlier ones)"""
+    if not (is_lit(t, "dict") and t[3] is not None):
+        return t
+    items = list(t[2])
+    for ev in events_before:
+        if ev[0] == "store" and isinstance(ev[2], tuple) and ev[2][0] == "sub" and ev[2][1] == t:
+            items = [(k, v) for k, v in items if k != ev[2][2]] + [(ev[2][2], ev[3])]
+        elif ev[0] in ("del", "mutcall") and isinstance(ev[2], tuple) and (ev[2] == t or (ev[2][0] == "sub" and ev[2][1] == t)):
+            return t  # removals / bulk updates: not followed
+    return ("lit", "dict", tuple(items), t[3])
+
+
+def entry_dict(t, events_before=()):
     """{'signature': X} display -> X, else None"""
+    t = materialise(t, events_before)
     if is_lit(t, "dict") and len(t[2]) == 1 and t[2][0][0] == C("signature"):
         return t[2][0][1]
+    return None
+
+
+def as_item_stores(eng, ev, sigs, evs):
+    """[(key, value)...] when the event adds exactly those items to the signature map and keeps
+    the rest: sigs.update({k: v, ...}) with a dict display, or sigs = {**sigs, k: v, ...}"""
+    before = evs[: evs.index(ev)] if ev in evs else evs
+    if ev[0] == "mutcall" and ev[2] == sigs and ev[3] == "update" and len(ev[4]) == 1:
+        d = materialise(eng.expand(ev[4][0]), before)
+        if is_lit(d, "dict") and d[2] and not any(k == ("unpack",) for k, _v in d[2]):
+            return list(d[2])
+    if ev[0] == "store" and ev[2] == sigs:
+        d = materialise(eng.expand(ev[3]), before)
+        if is_lit(d, "dict") and len(d[2]) >= 2 and d[2][0] == (("unpack",), sigs) and not any(k == ("unpack",) for k, _v in d[2][1:]):
+            return list(d[2][1:])
     return None
 
 
@@ -86,7 +116,15 @@ def agreement(ctx, rule):
     ctx.ob(rule, "agree-serializer", fn_site.loc(), "signer and verifier serialize envelope['signed'] with the same serializer term (%s)" % show(msg_w)[:100], norm_codec(msg_w) == norm_codec(msg_r))
     n = 0
     for p in w.returns:
+        evs_p = [e0 for e0, _d0 in flatten_events(p.events)]
+        stores_p = []
         for ev in w.stores(p):
+            items = as_item_stores(eng, ev, SubC(w.signable, "signatures"), evs_p)
+            if items is None:
+                stores_p.append(ev)
+            else:
+                stores_p.extend(("store", ev[1], Sub(SubC(w.signable, "signatures"), k), v) for k, v in items)
+        for ev in stores_p:
             if ev[0] != "store":
                 continue
             tgt, val = ev[2], ev[3]
@@ -96,7 +134,12 @@ def agreement(ctx, rule):
             s = ev[1]
             filed = pubhex_of_private(eng.expand(tgt[2]), w.priv)
             ctx.ob(rule, "agree-filing|%s" % s.key(), s.loc(), "signer files its entry under %s" % ("hex(raw public key of the signing key): the verifier rebuilds exactly that key from the map key" if filed else "something else than hex(raw public key bytes of the signing key): " + show(tgt[2])[:140]), filed)
-            sig = entry_dict(eng.expand(val))
+            before = []
+            for e0 in evs_p:
+                if e0 is ev or e0[1] == ev[1]:
+                    break
+                before.append(e0)
+            sig = entry_dict(eng.expand(val), before)
             if sig is None:
                 ctx.ob(rule, "agree-entry|%s" % s.key(), s.loc(), "signer's entry is not the one-field {'signature': ...} object the verifier reads (%s)" % show(val)[:120], False)
                 continue
